@@ -233,7 +233,18 @@ def recipe_text(rng: random.Random, title: Optional[str], servings: Optional[int
     if rng.random() < 0.7:
         q = rng.choice(["1", "2", "200g", "1/2 cup", "3 large"])
         a, b2 = rng.choice([("egg", "spam"), ("flour", "water"), ("rice", "peas")])
-        lines += [f"    {q} {a}", f"    {rng.choice(['1 tsp', '50ml', '4'])} {b2}", f"    mix({a}, {b2})", ""]
+        if rng.random() < 0.3:
+            # the same recipe split over several code blocks (indented block, then ```recipe fences that follow it and
+            # share its names); quantities also in the LATER blocks
+            c3, c4 = rng.choice([("milk", "sugar"), ("oil", "salt"), ("stock", "herbs")])
+            lines += [f"    {q} {a}", f"    {rng.choice(['1 tsp', '50ml', '4'])} {b2}", "",
+                      rng.choice(PROSE) + rng.choice(["", " {6}"]), "",
+                      "```recipe", f"{rng.choice(['3', '5', '1/2', '1 1/2', '2.5'])} {c3}", f"mix({a}, {b2}, {c3})", "```", ""]
+            if rng.random() < 0.5:
+                lines += ["Then:", "", "```recipe", f"{rng.choice(['7', '9', '3/4'])} {c4}",
+                          f"bake(mix({a}, {b2}, {c3}), {c4})", "```", ""]
+        else:
+            lines += [f"    {q} {a}", f"    {rng.choice(['1 tsp', '50ml', '4'])} {b2}", f"    mix({a}, {b2})", ""]
     if rng.random() < 0.2:
         lines += ["## Notes", "", rng.choice(PROSE) + " {10}", ""]
     return "\n".join(lines)
@@ -357,10 +368,17 @@ def gen_links(rng: random.Random, from_dir: Tuple[str, ...], tg: Dict[str, Any],
 
 
 def gen_site(rng: random.Random, profile: str = "valid", size: str = "medium") -> Dict[str, Any]:
+    M = rng.choice([1, 1, 2, 2, 3, 3, 4, 5, 6, 8, 10, 12])
+    big_m = size == "bigM"
+    if big_m:
+        # recipes stating MORE than 10 servings need max_servings above the default: a small tree with M in 11..16
+        size = "small"
+        M = rng.choice([11, 12, 12, 13, 14, 16])
     max_depth = {"small": 1, "medium": rng.choice([1, 2, 2, 3]), "deep": 4}[size]
     fan = {"small": 2, "medium": rng.choice([2, 3, 4]), "deep": 2}[size]
     budget = [{"small": 4, "medium": 10, "deep": 8}[size], {"small": 3, "medium": 8, "deep": 8}[size]]
-    M = rng.choice([1, 1, 2, 2, 3, 3, 4, 5, 6, 8, 10, 12])
+    if big_m:
+        budget = [3, 2]
     if size == "medium" and M > 6:
         budget = [6, 5]
     src = D("src", gen_skeleton(rng, 0, max_depth, fan, budget))
@@ -422,6 +440,8 @@ def gen_site(rng: random.Random, profile: str = "valid", size: str = "medium") -
                 serv = rng.choice([None, None, 1, 2, 3, 4, 6, 12])
                 if serv is not None:
                     serv = min(serv, M) if rng.random() < 0.9 else rng.randrange(1, M + 1)
+                if big_m and rng.random() < 0.7:
+                    serv = rng.randrange(11, M + 1)
                 links = gen_links(rng, dp, tg, rng.choice([0, 0, 1, 1, 2, 3]))
                 if rng.random() < 0.08:
                     t = ""
